@@ -33,7 +33,7 @@ def check(ctx, src):
     w = cm.func("hy2py_worker")
     ctx.require(w is not None, "hy2py_worker not found")
     asg = pyq.contains(w, lambda n: isinstance(n, ast.Assign) and isinstance(n.value, ast.Call) and dotted(n.value.func) == "hy_compile")
-    ctx.require(asg is not None, "hy2py_worker: hy_compile call not found")
+    ctx.need(asg is not None, "hy2py_worker: hy_compile call not found")
     v = norm(asg.targets[0])
     un = [c for c in pyq.calls(w) if dotted(c.func) == "ast.unparse"]
     ctx.check(len(un) == 1 and norm(un[0].args[0]) == v and norm(asg.value.args[0]) == "hst", "H2P-SAME", f"{CM}|hy2py_worker|unparse(compiled)", f"hy2py prints `{norm(un[0]) if un else None}`; it must unparse the module `{v}` that hy_compile returned for the whole stream",
